@@ -148,11 +148,16 @@ fn case_json(c: &BigCase) -> Value {
 }
 
 pub fn judge(c: &BigCase, l: &mut Local) {
+    judge_as("C13", c, l)
+}
+
+/// The same oracle reported under another property id (C01 runs a few volume histories through it).
+pub fn judge_as(prop: &str, c: &BigCase, l: &mut Local) {
     l.evaluations += 1;
     l.transitions += c.samples.len() as u64 + 3;
     let fail = |clause: &str, obs: Value, l: &mut Local| {
         l.outcome("VIOLATION");
-        l.violations.push(Violation::new("C13", clause, case_json(c)).obs(obs));
+        l.violations.push(Violation::new(prop, clause, case_json(c)).obs(obs));
     };
     let movie = MovieSpec::new(c.movie_ts, c.tracks.iter().map(|(k, t)| TrackSpec::new(*k, *t)).collect());
     let muxed = guard(|| -> std::result::Result<Sparse, String> {
